@@ -75,12 +75,20 @@ class _randobj:
                     
                 # Call the user's constructor
                 ro_i.ctor_level += 1
-                super().__init__(*args, **kwargs)
+                try:
+                    super().__init__(*args, **kwargs)
+                except:
+                    ro_i.ctor_level -= 1
+                    if ro_i.ctor_level == 0:
+                        pop_srcinfo_mode()
+                    raise
                 ro_i.ctor_level -= 1
                 
                 if ro_i.ctor_level == 0:
-                    self.build_field_model(None)
-                    pop_srcinfo_mode()
+                    try:
+                        self.build_field_model(None)
+                    finally:
+                        pop_srcinfo_mode()
             
         # Add the interposer class
         ret = type(T.__name__, (randobj_interposer,), dict())
